@@ -160,11 +160,18 @@ class Driver:
 
     def __init__(self, prop):
         b = driver_bin(prop)
+        self.p = None
+        # a driver that no longer builds against the regenerated Gen must not stop the failing-input search on the
+        # implementation: it answers every query with an error, the property oracles still run
+        if os.environ.get(f'VERIF_DRIVER_BROKEN_{prop.upper()}') == '1':
+            return
         if not os.path.exists(b):
             raise RuntimeError(f'driver binary {b} missing: run ./check --setup')
         self.p = subprocess.Popen([b], stdin=subprocess.PIPE, stdout=subprocess.PIPE, text=True, bufsize=1)
 
     def ask(self, obj):
+        if self.p is None:
+            return {'error': 'model-unavailable: the driver does not build against the regenerated Gen'}
         self.p.stdin.write(json.dumps(obj) + '\n')
         self.p.stdin.flush()
         line = self.p.stdout.readline()
@@ -173,6 +180,8 @@ class Driver:
         return json.loads(line)
 
     def close(self):
+        if self.p is None:
+            return
         try:
             self.p.stdin.close()
             self.p.wait(timeout=5)
@@ -183,6 +192,8 @@ class Driver:
 def driver_batch(prop, queries):
     if not queries:
         return []
+    if os.environ.get(f'VERIF_DRIVER_BROKEN_{prop.upper()}') == '1':
+        return [{'error': 'model-unavailable: the driver does not build against the regenerated Gen'} for _ in queries]
     inp = ''.join(json.dumps(q) + '\n' for q in queries)
     p = subprocess.run([driver_bin(prop)], input=inp, stdout=subprocess.PIPE, text=True)
     lines = p.stdout.splitlines()
@@ -338,9 +349,11 @@ class Run:
         except Exception as e:
             self.gen_report = {'error': f'{type(e).__name__}: {e}'}
         ok, log = build_driver(self.prop)
-        self.driver_ok = ok
+        self.driver_built = ok
+        self.driver_ok = True   # checks always run: with a broken driver only the property oracles can speak
         if not ok:
             self.extra['driver_build_errors'] = lean_errors(log)
+            os.environ[f'VERIF_DRIVER_BROKEN_{self.prop.upper()}'] = '1'
         self.proof = check_proofs(self.prop) if need_props else {'ok': True, 'theorems': [], 'errors': [], 'cmd': ''}
         return ok
 
@@ -382,7 +395,7 @@ class Run:
         broken = []
         if self.proof is not None and not self.proof['ok']:
             broken.append({'kind': 'proof-obligation', 'checker_cmd': self.proof['cmd'], 'errors': self.proof['errors']})
-        if getattr(self, 'driver_ok', True) is False:
+        if getattr(self, 'driver_built', True) is False:
             broken.append({'kind': 'model-build', 'errors': self.extra.get('driver_build_errors')})
         if unexplained:
             fams = sorted({d['family'] for d in unexplained})
